@@ -16,7 +16,7 @@ LEVEL_TEXT = ("Theorems for every list of bytes: recv is total, consumes exactly
               "and stops at a refused size field; server level: one reply per frame under the predicted tag (unknown type: the frame's tag, body-level rejection: NOTAG). "
               "Instantiated with C01's layouts and decoder (Frame/Instantiate.v): the two models of recv agree on every stream, a delivered message is the decoding of exactly the "
               "frame's body, and every frame send writes is delivered with exactly the encoded field values (up to mnorm). Every run re-checks the proofs and compares the model with the real recv / Server.Handle.")
-LEVEL_NOTE = ("Trusted: Coq kernel + vm_compute; the hand model Frame/Model.v (tied by the differential only); FrameGen.v (registry read from messages.go, also compared "
+LEVEL_NOTE = ("Sessions: a tag used by a REJECTED frame may be reused at once (only repeats among accepted frames make a session unjudged); the frame following a renegotiation is judged by the msize of the last Rversion (CReneg: Tversion with a 65,000-digit version number keeps its handler busy while the next receiver starts; 120 sessions quick / 1500 thorough). Trusted: Coq kernel + vm_compute; the hand model Frame/Model.v (tied by the differential only); FrameGen.v (registry read from messages.go, also compared "
               "with the run-time registry); CodecGen (decode programs gm_dec, layouts) with codecA's semantics Codec/Reuse.v. Inside the decoders: C02_program_verdict proves, for all 65 registered types "
               "(table obligation DecodeTie.all_good, vm_compute), every body, every recycled-object state and every pool content, that the generated decode program run as recv runs it accepts exactly what the layout decoder "
               "accepts on exactly the body bytes; C02_recv_with_programs / C02_serve_with_programs transfer every theorem stated for decode_codec to the programs; the unsliced pooled buffer (C02-m3) is refuted in the model. "
